@@ -216,7 +216,7 @@ def main(argv):
         # (d) generated PCB-style call sites (TH07/TH08 ECL): argument registers assigned in canonical, shuffled or partial
         #     order before `call(sub)`, several call sites per sub (the decompiler infers each sub's signature from them)
         npcb = 24 if tier == 'quick' else 600
-        def pcb_source(r2):
+        def pcb_source(r2, game='07'):
             ints = ['ARG_A', 'ARG_B', 'ARG_C', 'ARG_D']; floats = ['ARG_R', 'ARG_S', 'ARG_M', 'ARG_N']
             nsub = r2.randint(1, 3)
             sigs = [(r2.randint(0, 2), r2.randint(0, 2)) for _ in range(nsub)]
@@ -224,22 +224,29 @@ def main(argv):
             for k in range(nsub): out.append('void testSub%d() {}' % k); out.append('')
             out.append('void sub%d() {' % nsub)
             for _ in range(r2.randint(2, 5)):
-                k = r2.randrange(nsub); ni, nf = sigs[k]
+                k = r2.randrange(nsub); ni, nf = sigs[k] if game != '06' else (0, 0)
                 regs = [(x, True) for x in ints[:ni]] + [(x, False) for x in floats[:nf]]
                 mode = r2.random()
                 if mode < 0.45: r2.shuffle(regs)
                 elif mode < 0.6 and regs: regs.pop(r2.randrange(len(regs)))
                 for (x, is_int) in regs:
-                    out.append('    %s = %s;' % (x, str(r2.randint(-5, 9)) if is_int else '%d.0' % r2.randint(0, 9)))
+                    out.append('    %s = %s;' % (x, str(r2.randint(-5, 9)) if is_int else r2.choice(['%d.0' % r2.randint(0, 9), '0.00001', '30000000000000000.0', '0.000000001', '(-123456789012345678901234567890.0)', '0.1', '16777217.0'])))
                     if r2.random() < 0.15: out.append('    I0 = %d;' % r2.randint(0, 3))
-                out.append('    call(testSub%d);' % k)
+                if game != '06': out.append('    call(testSub%d);' % k)
+                if r2.random() < (0.5 if game != '06' else 0.95):
+                    # a run of adjacent same-opcode instructions with split difficulty masks (two-part compares, assignments)
+                    labels = r2.choice([['EN', 'HL'], ['E', 'N', 'H', 'L'], ['EN', 'H', 'L'], ['E', 'NHL'], ['EH', 'L'], ['ENH', 'L']])
+                    kind = r2.randrange(3) if game == '06' else 2   # the two-part compares exist in EoSD only
+                    for lb in labels:
+                        v_ = r2.randint(0, 9)
+                        out.append('    {"%s"}: %s' % (lb, ['ins_27(I0, %d);' % v_, 'ins_28(F0, %d.0);' % v_, 'I1 = %d;' % v_][kind]))
             out.append('}'); out.append('')
             return '\n'.join(out)
         def compile_pcb(i):
             r2 = random.Random(seed * 7919 + i)
-            game = r2.choice(['07', '08'])
+            game = r2.choice(['06', '07', '08'])
             d = os.path.join(work, 'pcb%d' % i); os.makedirs(d, exist_ok=True)
-            src = os.path.join(d, 'in.spec'); open(src, 'w').write(pcb_source(r2))
+            src = os.path.join(d, 'in.spec'); open(src, 'w').write(pcb_source(r2, game))
             out = os.path.join(d, 'in.bin')
             rc, err = cli(['truecl', 'compile', '-g', game, src, '-o', out, '-m', 'map/any.eclm'], cwd=REPO)
             if rc != 0 or not os.path.exists(out): return None
